@@ -338,6 +338,11 @@ func bindArrayTop(p spec.Parameter, s simple, vals []string, present bool) (Verd
 }
 
 func bindElems(s simple, elems []string) (Verdict, interface{}, string) {
+	return bindElemsAt(s, elems, 0)
+}
+
+// bindElemsAt: depth 0 is the parameter's own array, depth >= 1 an inner array of a nested array.
+func bindElemsAt(s simple, elems []string, depth int) (Verdict, interface{}, string) {
 	if s.Items == nil {
 		return DontCare, nil, "array without items"
 	}
@@ -347,15 +352,35 @@ func bindElems(s simple, elems []string) (Verdict, interface{}, string) {
 	why := ""
 	for _, e := range elems {
 		if e == "" {
-			verdict, why = DontCare, "empty element inside a separator list"
-			out = append(out, nil)
-			continue
+			// Two readings exist for an empty element: (A) it is dropped, (B) it is the empty string (for
+			// array items: an empty inner array). The request is don't-care unless BOTH readings reject.
+			// (Inner arrays only: for the parameter's own array "present but without elements" has its own rules.)
+			if depth == 0 {
+				return DontCare, nil, "empty element inside a separator list"
+			}
+			var kept []string
+			for _, x := range elems {
+				if x != "" {
+					kept = append(kept, x)
+				}
+			}
+			va, _, _ := bindElemsAt(s, kept, depth)
+			var vb Verdict
+			if it.Type == "array" {
+				vb, _, _ = bindElemsAt(it, nil, depth+1)
+			} else {
+				vb, _, _ = parseAndValidate(it, "")
+			}
+			if va == Reject && vb == Reject {
+				return Reject, nil, "empty element: rejected whether it is dropped or read as an empty value"
+			}
+			return DontCare, nil, "empty element inside a separator list"
 		}
 		var v Verdict
 		var val interface{}
 		var w string
 		if it.Type == "array" {
-			v, val, w = bindElems(it, split(it.CF, e))
+			v, val, w = bindElemsAt(it, split(it.CF, e), depth+1)
 		} else {
 			v, val, w = parseAndValidate(it, e)
 		}
